@@ -235,9 +235,10 @@ def update_connectivity(
     if start_index != 0:
         column_values = column_values + start_index
 
-    dtype = connectivity.encoding.get('dtype', connectivity.dtype)
+    # The encoding may spell the type as a string or a numpy scalar type
+    dtype = numpy.dtype(connectivity.encoding.get('dtype', connectivity.dtype))
 
-    if dtype.kind == 'i':
+    if dtype.kind in 'iu':
         # Ensure the fill value fits within the representable integers
         max_representable = numpy.iinfo(dtype).max
         if max_representable < fill_value:
